@@ -345,6 +345,32 @@ class Deriver:
                     yield (rule, s, l), self.embed(tr_, rule, par)
 
 
+    def sentences_pairs(self, starts):
+        """One derivation per pair of consecutive automaton arcs (s -l-> t -l2-> t2) of every reachable rule: every way two
+        steps of a rule follow each other (repetitions, separators followed by another item, optional parts in sequence)."""
+        par = self.parents(starts)
+        g = self.g
+        for rule in g.names:
+            if rule not in par:
+                continue
+            d = g.dfa[rule]
+            dist, path = self._dijkstra(d, 0)
+            for s, tr in enumerate(d.trans):
+                if s not in dist:
+                    continue
+                for l, t in sorted(tr.items()):
+                    if self._sym_cost(l) == float('inf'):
+                        continue
+                    for l2, t2 in sorted(d.trans[t].items()):
+                        if self._sym_cost(l2) == float('inf'):
+                            continue
+                        tail = self.to_final(d, t2)
+                        if tail is None:
+                            continue
+                        w = path[s] + [l, l2] + tail
+                        tree = ('N', rule, [self.expand(x) for x in w])
+                        yield (rule, s, l, 'then', l2), self.embed(tree, rule, par)
+
     def sentences_in_sites(self, starts):
         """One derivation per (use site of a rule, automaton arc of that rule): every arc of R is also taken inside
         every rule that refers to R, not only inside R's cheapest context."""
